@@ -759,6 +759,54 @@ Proof.
 Qed.
 
 (* ------------------------------------------------------------------------------------ *)
+(* statelessness: authentication is a function of (configuration, header values, clock)  *)
+(* only.  Whatever was presented before, the i-th answer of a history is the single-call *)
+(* answer at time t_i.  This is what the driver's history cases check on the real        *)
+(* middleware (a token cached while valid must not stay accepted after its exp).         *)
+
+Theorem oidc_stateless (parse_jwt : bytes -> token) cfg h i c :
+  nth_error h i = Some c ->
+  nth_error (oidc_run parse_jwt cfg h) i = Some (oidc_authenticate parse_jwt cfg (fst c) (snd c)).
+Proof.
+  intro Hn. unfold oidc_run.
+  exact (map_nth_error (fun c => oidc_authenticate parse_jwt cfg (fst c) (snd c)) i h Hn).
+Qed.
+
+Theorem psk_stateless (H : bytes -> bytes) h i c :
+  nth_error h i = Some c ->
+  nth_error (psk_run H h) i
+  = Some (match psk_new H (fst c) with
+          | None => None
+          | Some hs => Some (psk_authenticate H hs (snd c))
+          end).
+Proof.
+  intro Hn. unfold psk_run.
+  exact (map_nth_error (fun c => match psk_new H (fst c) with
+                                 | None => None
+                                 | Some hs => Some (psk_authenticate H hs (snd c))
+                                 end) i h Hn).
+Qed.
+
+Lemma nth_error_middle {A} (l1 : list A) x l2 : nth_error (l1 ++ x :: l2) (length l1) = Some x.
+Proof. induction l1 as [|y l1 IH]; simpl; [reflexivity | exact IH]. Qed.
+
+(* the answer to a call does not depend on the calls before or after it *)
+Theorem authn_stateless :
+  (forall (parse_jwt : bytes -> token) cfg h1 h1' c h2 h2',
+     nth_error (oidc_run parse_jwt cfg (h1 ++ c :: h2)) (length h1)
+     = nth_error (oidc_run parse_jwt cfg (h1' ++ c :: h2')) (length h1')) /\
+  (forall (H : bytes -> bytes) h1 h1' c h2 h2',
+     nth_error (psk_run H (h1 ++ c :: h2)) (length h1)
+     = nth_error (psk_run H (h1' ++ c :: h2')) (length h1')).
+Proof.
+  split; intros.
+  - rewrite (oidc_stateless parse_jwt cfg _ _ c (nth_error_middle h1 c h2)).
+    rewrite (oidc_stateless parse_jwt cfg _ _ c (nth_error_middle h1' c h2')). reflexivity.
+  - rewrite (psk_stateless H _ _ c (nth_error_middle h1 c h2)).
+    rewrite (psk_stateless H _ _ c (nth_error_middle h1' c h2')). reflexivity.
+Qed.
+
+(* ------------------------------------------------------------------------------------ *)
 (* non-vacuity                                                                           *)
 
 Example ex_accept :
